@@ -175,6 +175,12 @@ func corpusC02() []*Case {
 		[]Pkg{pk("w", "1", "x", "a"), pk("a", "1"), pk("x", "1", "!a-doc"), pk("a-doc", "1").iif("a"),
 			pk("w2", "1", "b", "y"), pk("b", "1"), pk("y", "1"), pk("b-doc", "1", "!y").iif("b")},
 		w("w"), w("x", "a"), w("a", "x"), w("w2"), w("y", "b"), w("b", "y")))
+	// session 7: constrain disqualifies an own-name provider whose version does not parse; that is observable only when
+	// every parsable version is out of the way later: a -> x>1 (x=2.0 chosen, x=abc disqualified), b -> !x>1, x (x=2.0
+	// excluded, x=abc already disqualified: error).  Mutant s7-m1 (x=abc kept) went unnoticed by 8732 generated universes.
+	cs = append(cs, single("constrain disqualifies an own-name provider with an unparsable version",
+		[]Pkg{pk("a", "1", "x>1"), pk("b", "1", "!x>1", "x"), pk("x", "2.0"), pk("x", "abc"), pk("c", "1", "x")},
+		w("a", "b"), w("b", "a"), w("b"), w("a", "c"), w("c")))
 	return cs
 }
 
